@@ -773,6 +773,20 @@ func suiteDateFun(o *Out, thorough bool, seed int64) {
 			ev("[millSecond("+u+") == millSecond("+dt+"), hour("+u+"), day("+u+"), year("+u+")]", off, "-")
 		}
 	}
+	// times handed in by the host whose location merely carries the name of a zone (time.FixedZone, time.Parse of an
+	// abbreviation): useTimezone goes by the zone database, not by the name the value arrives with
+	for _, nz := range []struct {
+		name string
+		off  int
+	}{{"Etc/GMT-8", 0}, {"Etc/GMT-8", 28800}, {"Etc/GMT+5", 3600}, {"UTC", 7200}, {"Etc/GMT-14", -3600}, {"No/Where", 3600}, {"", 19800}, {"Local", 60}} {
+		for _, ns := range []string{"1700000000000000000", "43200000000000", "-86399000000000"} {
+			data := wmap("t", fmt.Sprintf("M%s:%d:%s", ns, nz.off, hx([]byte(nz.name))))
+			for _, z := range []string{"UTC", "Etc/GMT-8", "Etc/GMT+5", "Etc/GMT-14", "No/Where"} {
+				u := "useTimezone(t, '" + z + "')"
+				ev("[hour("+u+"), day("+u+"), millSecond("+u+") == millSecond(t), hour(t)]", 0, data)
+			}
+		}
+	}
 	// zones with daylight saving, timeFormat, now/toDay: judged on the implementation alone
 	line := func(t string) string { return fmt.Sprintf("EV\t%s\t0\t-\t-", hx([]byte(t))) }
 	for _, z := range []string{"America/New_York", "Europe/Berlin", "Australia/Lord_Howe", "Asia/Kolkata"} {
